@@ -37,8 +37,9 @@ theorem c02_handed_active_owned (cfg : Cfg) (hc : cfg.shortDeliveryOk = true) (h
     intro k p t ht
     obtain ⟨t0, _, rfl⟩ := assignRequested_spec w k p t ht
     exact ⟨rfl, rfl⟩
-  unfold suggestBody
-  simp only [pendingFree_find st hdone w]
+  rw [suggestBody_of_free _ _ _ _ _ (pendingFree_find st hdone w)]
+  unfold suggestRest
+  simp only []
   have e1 : (List.filter (fun t => t.state == TState.active && t.client == w) st.trials) = ownActive st w := rfl
   simp only [e1]
   split
